@@ -24,7 +24,44 @@ def model_check(cfgs, timeout=2400):
     return states, trans, runs
 
 
-def run_rt(pid, tier, replay, emphasis, assumptions, progs=None, extra_cov=None, mc=()):
+def orphan_runs(tier, pid, names=("split2", "chain", "map_dyn2", "diamond", "subpipe", "split10")):
+    """Restart runs in which a job fails, mrp exits, and the jobs that were
+    running survive it and report later under their old attempt (directory and
+    journal name).  Returns (violations of pid, coverage)."""
+    import random
+    import psrun
+    rng = random.Random(vlib.seed() + 17)
+    progs = [p for p in shapes.catalogue() if p["name"] in names]
+    sem, _ = psrun.semantics(progs)
+    specs = []
+    for p in progs:
+        jobs = [j["key"] for j in psprops.expected_jobs(sem[p["name"]])]
+        for n in range({"quick": 10, "thorough": 80}[tier]):
+            specs.append(psrun.make_spec(p, sem[p["name"]],
+                                         {"kind": "random", "seed": rng.randrange(1 << 30), "penv": rng.choice([0.5, 0.8, 0.95])},
+                                         name="%s#o%d" % (p["name"], n), faults={rng.choice(jobs): "errors"},
+                                         restart=True, orphans=True))
+    res = psrun.run_specs(specs, nproc=16)
+    recs = []
+    for sp, r in zip(specs, res):
+        recs += psprops.monitor_records(sp, sem[sp["name"].split("#")[0]], r)
+    bad, tlc = psprops.run_monitor(recs)
+    by = {sp["name"]: (sp, r) for sp, r in zip(specs, res)}
+    viols = []
+    for b in bad:
+        if b["prop"] != pid:
+            continue
+        sp, r = by[b["run"]]
+        viols.append({"prop": pid, "key": "%s:stale-attempt:%s:%s" % (pid, sp["name"].split("#")[0], b["what"].split(":")[0][:60]),
+                      "what": "%s after a restart with surviving jobs of the previous mrp: [%s] %s (program %s, fault %s)" % (
+                          pid, b["job"], b["what"], sp["name"], json.dumps(sp["faults"])),
+                      "replay": {"spec.json": json.dumps(dict(sp, sched={"kind": "script", "script": r["script"]})),
+                                 "trace.ndjson": "\n".join(json.dumps(e) for e in r["trace"]) + "\n"}})
+    norph = sum(1 for r in res for e in r["trace"] if e["ev"] == "JournalWrite" and "#orphan" in e.get("job", ""))
+    return viols, {"restart_runs_with_surviving_jobs": len(specs), "stale_notifications_written": norph}
+
+
+def run_rt(pid, tier, replay, emphasis, assumptions, progs=None, extra_cov=None, mc=(), extra=None):
     t0 = time.time()
     if replay:
         bad, r = psprops.replay_spec(replay)
@@ -40,6 +77,10 @@ def run_rt(pid, tier, replay, emphasis, assumptions, progs=None, extra_cov=None,
     others = sorted({v["prop"] for v in viols if v["prop"] != pid})
     if others:
         print("NOTE the same runs also violate %s (reported by those checks)" % ",".join(others))
+    more_cov = {}
+    if extra:
+        ev, more_cov = extra(tier, pid)
+        mine += ev
     rc, nunk, hit = vlib.conclude(pid, mine)
     cov = {
         "states": max(1, mstates + stats["tlc_states"]),
@@ -60,6 +101,7 @@ def run_rt(pid, tier, replay, emphasis, assumptions, progs=None, extra_cov=None,
         "known_findings_hit": hit,
     }
     cov.update(extra_cov or {})
+    cov.update(more_cov)
     vlib.write_evidence(pid, tier, "model_checking", cov, assumptions, time.time() - t0, violations=nunk)
     return rc
 
